@@ -52,6 +52,11 @@ def worlds(tier: str, stats: Dict[str, Any]) -> Iterator[Any]:
                             yield dict(mode="tree", fam=[list(x) for x in fam], launches=[[p, list(d)] for p, d in zip(pl, devs)],
                                        orphan=orphan)
                             if k >= 1 and not orphan and n <= 2:
+                                # a short-lived helper thread with the highest thread id, active only at the very beginning
+                                stats["transitions"] += 1
+                                yield dict(mode="tree", fam=[list(x) for x in fam], launches=[[p, list(d)] for p, d in zip(pl, devs)],
+                                           orphan=False, helper_thread=True)
+                            if k >= 1 and not orphan and n <= 2:
                                 # event ids beyond 127 (metadata entries first) and the call graph built twice on the same trace
                                 stats["transitions"] += 1
                                 yield dict(mode="tree", fam=[list(x) for x in fam], launches=[[p, list(d)] for p, d in zip(pl, devs)],
@@ -113,6 +118,8 @@ def build_tree_world(w) -> List[Dict[str, Any]]:
         evs.append(kineto.kernel("kern_orphan", E0 + 1, 2, 9, 99))
     if w.get("file_order") == "reversed":
         evs = evs[:1] + evs[1:][::-1]
+    if w.get("helper_thread"):
+        evs.append(kineto.cpu_op("aten::helper", E0 - 9, 1, ext=77, tid=9000))
     if w.get("pad"):
         evs = evs[:1] + [kineto.meta_event(E0 + k) for k in range(w["pad"])] + evs[1:]
     return evs
